@@ -16,7 +16,7 @@ RULE = ("Generated: three state types, n 1..3 (thorough: ..4), nh 1..3, na 1..3,
         "S2 >= 0; pure states: purity(A) == purity(complement), == 1 for empty/full A; on a generated longer batch there is a "
         "cyclic shift d in {+1,-1} with out[b] = f(s_b, s_{b+d}); batch unchanged. Non-trivial = a proper non-empty region "
         "exists (n >= 2), all biases non-zero, and (density) purity of the full state < 1 - 1e-6.")
-RULE_EXT = ('Extended as built: held outputs re-verified after later calls, int64 / float32 sample batches, batches of several hundred rows, parameter scale 30 (bound 80), per-pair reference values rather than only the sum.')
+RULE_EXT = ('Extended as built: held outputs re-verified after later calls, int64 / float32 sample batches, batches of several hundred rows, parameter scale 30 (bound 80), per-pair reference values rather than only the sum. Rounds 5-6: the documented helper swap(s1, s2, A) called directly for every region form; a bare site index given to the constructor and assigned to the public attribute A.')
 RULE = RULE + " " + RULE_EXT
 ASSUMPTIONS = ["tolerance 1e-7 absolute on purities (all in [0,1])", "4^n two-row evaluations per region: n=4 only in the thorough tier"]
 
@@ -77,9 +77,10 @@ def check(case):
     for ai, A in enumerate(regions):
         forms = [fmt_region(A, (ai + case["fmt"]) % 3)]
         if len(A) == 1:
-            forms.append(int(A[0]))
+            forms.append(int(A[0]))          # a bare site index given to the constructor
+            forms.append(int(A[0]))          # ... and assigned to the public attribute afterwards (handled below: the LAST form)
         F = None
-        for form in forms:
+        for fi, form in enumerate(forms):
             # the documented helper swap(s1, s2, A) itself: region A of the two replicas is exchanged, everything else kept
             from qucumber.observables.entanglement import swap as swap_helper
             b1, b2 = batch.clone(), torch.roll(batch, 1, 0).clone()
@@ -89,7 +90,7 @@ def check(case):
                 e1[:, a], e2[:, a] = b2[:, a], b1[:, a]
             require(torch.equal(r1, e1) and torch.equal(r2, e2), "swap-helper", f"swap(s1, s2, A) with A={form!r} did not exchange exactly region A between the two replicas")
             obs = SWAP(form)
-            if len(forms) > 1 and form is forms[-1]:
+            if len(forms) > 2 and fi == len(forms) - 1:
                 obs = SWAP(list(range(n)))
                 obs.A = form                    # the region is a plain public attribute
             held = []
